@@ -1532,8 +1532,9 @@ LEVEL_TEXT = ('Proof: Coq theorem for EVERY expression tree (any depth, any numb
               'the code by a structural correspondence on random trees (the whole derivative object is compared).')
 LEVEL_NOTE = ('Validated, not proved: the O(h^2) rate; non-integer powers, PointwiseNorm exponents other than 1, 2, '
               'complex scalars/products, the remaining ~20 functionals, weighted/discretised spaces (theorems are for '
-              'unweighted rn/cn), finite-difference operators with pad_const -- all by central-difference probes on the '
-              'real objects. Exact arithmetic: rounding out of scope. Seven recorded findings (findings/C06.json) with '
+              'rn/cn with constant/array weightings and 1-d uniform_discr), finite-difference operators with pad_const -- all '
+              'by central-difference probes on the '
+              'real objects. Exact arithmetic: rounding out of scope. Eight recorded findings (findings/C06.json) with '
               'four proposed fixes. Axioms: classical reals, funext, classic as printed.')
 TECHNIQUE = ('Coq proof by structural induction over a deep embedding of operator arithmetic (nested lists for block '
              'operators), with a curve-based (Hadamard) differentiability calculus on R^n built on the standard-library '
